@@ -605,7 +605,6 @@ func addrRoots(v ssa.Value) []ssa.Value {
 	return out
 }
 
-
 // retVal returns the i-th result of a return instruction, seeing through the
 // result spilling go/ssa performs in functions with defers (`*r = v;
 // rundefers; return *r`).
@@ -634,7 +633,6 @@ func retVal(ret *ssa.Return, i int) ssa.Value {
 	}
 	return v
 }
-
 
 // normalReturn: the Return terminating b, unless b is the function's recover
 // block (whose return only reloads the named results).
